@@ -86,6 +86,10 @@ mod harness {
         amino_table_law(&mut KaniSrc);
     }
     #[kani::proof]
+    fn text_bits_identity() {
+        super::laws::text_bits_identity(&mut KaniSrc);
+    }
+    #[kani::proof]
     fn conversions() {
         conversion_law(&mut KaniSrc);
     }
